@@ -36,6 +36,8 @@ struct ThreadPlan {
     spin_obs: bool,
     /// the script is run back to back (`ThreadCtx::exec_tight`)
     tight: bool,
+    /// the thread ends by a panic: its handles are dropped while it unwinds
+    dies: bool,
 }
 #[derive(Clone, Debug)]
 struct Program {
@@ -76,9 +78,9 @@ fn gen_obs(rng: &mut Rng, miri: bool, classes: &[&'static str]) -> Program {
         &[Op::RecvTimeout(20), Op::TryRecv, Op::DropR],
     ];
     // mutators: always one sender script; often a receiver script as well
-    threads.push(ThreadPlan { sender: Some(rng.chance(1, 2)), receiver: None, ops: rng.pick(&scripts_s).to_vec(), reps: 1, until_end: false, spin_obs: false, tight: rng.chance(3, 4) });
+    threads.push(ThreadPlan { sender: Some(rng.chance(1, 2)), receiver: None, ops: rng.pick(&scripts_s).to_vec(), reps: 1, until_end: false, spin_obs: false, tight: rng.chance(3, 4), dies: false });
     if rng.chance(1, 2) {
-        threads.push(ThreadPlan { sender: None, receiver: Some(rng.chance(1, 2)), ops: rng.pick(&scripts_r).to_vec(), reps: 1, until_end: false, spin_obs: false, tight: rng.chance(3, 4) });
+        threads.push(ThreadPlan { sender: None, receiver: Some(rng.chance(1, 2)), ops: rng.pick(&scripts_r).to_vec(), reps: 1, until_end: false, spin_obs: false, tight: rng.chance(3, 4), dies: false });
     }
     let nobs = if miri { 1 } else { 1 + rng.below(2) as usize };
     for k in 0..nobs {
@@ -93,7 +95,7 @@ fn gen_obs(rng: &mut Rng, miri: bool, classes: &[&'static str]) -> Program {
         // are merged into one event afterwards); under Miri a fixed handful of calls
         let fav = *rng.pick(pool);
         let ops: Vec<Op> = if miri { (0..8).map(|_| if rng.chance(1, 2) { fav } else { *rng.pick(pool) }).collect() } else { vec![fav; 8] };
-        threads.push(ThreadPlan { sender: (!recv_side).then(|| rng.chance(1, 2)), receiver: recv_side.then(|| rng.chance(1, 2)), ops, reps: 1, until_end: false, spin_obs: !miri, tight: false });
+        threads.push(ThreadPlan { sender: (!recv_side).then(|| rng.chance(1, 2)), receiver: recv_side.then(|| rng.chance(1, 2)), ops, reps: 1, until_end: false, spin_obs: !miri, tight: false, dies: false });
     }
     Program { cap, class, async_ctor: rng.chance(1, 2), threads, delay_permille: 0 }
 }
@@ -158,7 +160,7 @@ fn gen_short(rng: &mut Rng, miri: bool, classes: &[&'static str]) -> Program {
         }
         // a third of the threads run their script back to back (only takes effect when no call in it can block)
         let tight = !miri && rng.chance(1, 3);
-        threads.push(ThreadPlan { sender: s.then(|| rng.chance(1, 2)), receiver: r.then(|| rng.chance(1, 2)), ops, reps: 1, until_end: false, spin_obs: false, tight });
+        threads.push(ThreadPlan { sender: s.then(|| rng.chance(1, 2)), receiver: r.then(|| rng.chance(1, 2)), ops, reps: 1, until_end: false, spin_obs: false, tight, dies: rng.chance(1, 5) });
     }
     Program { cap, class, async_ctor: rng.chance(1, 2), threads, delay_permille: *rng.pick(&[0, 100, 300, 600]) }
 }
@@ -178,7 +180,7 @@ fn gen_churn(rng: &mut Rng, classes: &[&'static str], per_thread: u32, maxthread
             };
             ops.push(o);
         }
-        threads.push(ThreadPlan { sender: Some(rng.chance(1, 2)), receiver: Some(rng.chance(1, 2)), ops, reps: per_thread / 24 + 1, until_end: false, spin_obs: false, tight: false });
+        threads.push(ThreadPlan { sender: Some(rng.chance(1, 2)), receiver: Some(rng.chance(1, 2)), ops, reps: per_thread / 24 + 1, until_end: false, spin_obs: false, tight: false, dies: false });
     }
     Program { cap: *rng.pick(&[Some(0), Some(2), None]), class: *rng.pick(classes), async_ctor: rng.chance(1, 2), threads, delay_permille: *rng.pick(&[0, 0, 50]) }
 }
@@ -215,7 +217,7 @@ fn gen_long(rng: &mut Rng, classes: &[&'static str], caps: &[Option<usize>], per
             };
             ops.push(o);
         }
-        threads.push(ThreadPlan { sender: Some(rng.chance(1, 2)), receiver: None, ops, reps: per_thread / 16 + 1, until_end: false, spin_obs: false, tight: false });
+        threads.push(ThreadPlan { sender: Some(rng.chance(1, 2)), receiver: None, ops, reps: per_thread / 16 + 1, until_end: false, spin_obs: false, tight: false, dies: rng.chance(1, 4) });
     }
     for _ in 0..nc {
         let mut ops = Vec::new();
@@ -239,11 +241,11 @@ fn gen_long(rng: &mut Rng, classes: &[&'static str], caps: &[Option<usize>], per
             ops[0] = Op::Recv;
         }
         let reps = if ending == Ending::ReceiversLeave { per_thread / 64 + 1 } else { u32::MAX };
-        threads.push(ThreadPlan { sender: None, receiver: Some(rng.chance(1, 2)), ops, reps, until_end: true, spin_obs: false, tight: false });
+        threads.push(ThreadPlan { sender: None, receiver: Some(rng.chance(1, 2)), ops, reps, until_end: true, spin_obs: false, tight: false, dies: false });
     }
     if ending == Ending::CloseMid {
         // a closer (holds a sender handle, only closes)
-        threads.push(ThreadPlan { sender: Some(false), receiver: None, ops: vec![Op::Len, Op::SenderCount, Op::CloseS, Op::CloseS, Op::IsClosed], reps: 1, until_end: false, spin_obs: false, tight: false });
+        threads.push(ThreadPlan { sender: Some(false), receiver: None, ops: vec![Op::Len, Op::SenderCount, Op::CloseS, Op::CloseS, Op::IsClosed], reps: 1, until_end: false, spin_obs: false, tight: false, dies: false });
     }
     (Program { cap, class, async_ctor: rng.chance(1, 2), threads, delay_permille: *rng.pick(&[0, 0, 20, 100]) }, ending)
 }
@@ -303,6 +305,8 @@ fn run_program<T: Payload>(p: &Program, seed: u64, long: bool, closer_delay_us: 
                     slot.begin_thread();
                     ctx.status = Some(slot);
                     fp::set_role(i as u32 + 1);
+                    let th = ctx.th;
+                    let body = std::panic::catch_unwind(std::panic::AssertUnwindSafe(move || {
                     while !go.load(Ordering::Acquire) {
                         std::hint::spin_loop();
                         if cfg!(miri) {
@@ -365,8 +369,11 @@ fn run_program<T: Payload>(p: &Program, seed: u64, long: bool, closer_delay_us: 
                     if !tp.spin_obs {
                         done_mut.fetch_add(1, Ordering::Release);
                     }
+                    if tp.dies && !tp.spin_obs {
+                        // ends by a panic: `ctx` is dropped by the unwinding and lets its handles go then
+                        kverif::ops::die();
+                    }
                     ctx.finish();
-                    slot.finish();
                     if tp.spin_obs {
                         // consecutive identical observations become one event spanning all of them (weaker, hence
                         // never a false alarm: any linearization of the originals gives one of the merged event)
@@ -379,7 +386,14 @@ fn run_program<T: Payload>(p: &Program, seed: u64, long: bool, closer_delay_us: 
                         }
                         return merged;
                     }
-                    ctx.log
+                    std::mem::take(&mut ctx.log)
+                    }));
+                    slot.finish();
+                    match body {
+                        Ok(log) => log,
+                        Err(p) if p.is::<kverif::ops::Died>() => kverif::ops::take_death_log(th),
+                        Err(p) => std::panic::resume_unwind(p),
+                    }
                 })
                 .unwrap(),
         );
@@ -662,6 +676,7 @@ fn main() {
     let hits = fp::hits_delta(&hits0);
     let mut out = J::obj();
     out.set("engine", J::s("hist"));
+    out.set("threads_that_died_by_panic", J::U(kverif::ops::DEATHS.load(std::sync::atomic::Ordering::Relaxed)));
     out.set("drop_probe_calls", J::U(payload::PROBE_CALLS.load(std::sync::atomic::Ordering::Relaxed)));
     out.set("mode", J::s(mode.clone()));
     out.set("seed", J::U(seed));
